@@ -9,8 +9,9 @@ Check C10_all_fail :
   step st1 l = Some st2 -> c_status st2 = TearingDown e ->
   run st2 ls2 = Some st3 -> c_status st3 = Broken e' ->
   e' = e /\
-  forall r, In r (pending_rids st2) ->
-    exists o, outcome_of r (c_done st3) = Some o /\ broken_class o = true.
+  (forall r, In r (pending_rids st2) ->
+     exists o, outcome_of r (c_done st3) = Some o /\ broken_class o = true) /\
+  (forall r o, outcome_of r (c_done st3) = Some o -> In (r, o) (c_done st2) \/ broken_class o = true).
 Check C10_accounting :
   forall ctl st, reachable ctl st ->
   Acct (pending_rids st) (c_done st) (c_submitted st) (c_cancelled st).
@@ -20,18 +21,29 @@ Check C10_none_left :
   (exists o, outcome_of r (c_done st) = Some o) \/ In r (c_cancelled st).
 Check C10_later_submit_fails :
   forall ctl st r st',
-  reachable ctl st -> c_status st <> Open -> step st (Submit r) = Some st' ->
+  reachable ctl st -> chan_closed st = true -> step st (Reserve r) = Some st' ->
   outcome_of r (c_done st') = Some FailChannel /\ pending_rids st' = pending_rids st.
+Check C10_submit_during_teardown :
+  forall ctl st e r st',
+  reachable ctl st -> c_status st = TearingDown e -> step st (Reserve r) = Some st' ->
+  c_status st' = TearingDown e /\ In r (pending_rids st').
 Check C10_teardown_progress :
-  forall st e, c_status st = TearingDown e ->
-  exists st', step st TdStep = Some st' /\ (td_measure st' < td_measure st)%nat /\
-    ((c_status st' = TearingDown e /\ td_measure st' = pred (td_measure st)) \/
-     (c_status st' = Broken e /\ pending_rids st' = [] /\ c_err_sent st' = true /\ td_measure st = 1%nat)).
+  forall ctl st e, reachable ctl st ->
+  c_status st = TearingDown e \/ c_status st = Draining e ->
+  exists st', td_next st = Some st' /\ (td_measure st' < td_measure st)%nat /\
+    (c_status st' = TearingDown e \/ c_status st' = Draining e \/
+     (c_status st' = Broken e /\ pending_rids st' = [] /\ c_err_sent st' = true)).
+Check C10_draining_monotone :
+  forall st l st' e,
+  c_status st = Draining e -> step st l = Some st' -> (td_measure st' <= td_measure st)%nat.
 Check C10_teardown_terminates :
-  forall n st e,
-  c_status st = TearingDown e -> td_measure st = S n ->
-  exists st', run st (repeat TdStep (S n)) = Some st' /\ c_status st' = Broken e /\
-              pending_rids st' = [] /\ c_err_sent st' = true.
+  forall ctl n st e, reachable ctl st ->
+  c_status st = TearingDown e \/ c_status st = Draining e -> (td_measure st <= n)%nat ->
+  c_status (teardown n st) = Broken e /\ pending_rids (teardown n st) = [] /\
+  c_err_sent (teardown n st) = true.
+Check C10_teardown_is_a_run :
+  forall fuel st, exists ls, run st ls = Some (teardown fuel st) /\
+  Forall (fun l => l = TdStep \/ exists r, l = Push r) ls /\ (List.length ls <= fuel)%nat.
 Check C10_cut_anywhere :
   forall st bs, c_status st = Open ->
   exists st1, step st (Recv bs) = Some st1 /\
@@ -40,10 +52,27 @@ Check C10_cut_anywhere :
 Check C10_fault_completes_all :
   forall ctl ls l st st2 e,
   run (conn_init ctl) ls = Some st -> step st l = Some st2 -> c_status st2 = TearingDown e ->
-  exists st3, run st2 (repeat TdStep (td_measure st2)) = Some st3 /\ c_status st3 = Broken e /\
-    c_err_sent st3 = true /\
+  exists fin st3, run st2 fin = Some st3 /\ Forall (fun l => l = TdStep \/ exists r, l = Push r) fin /\
+    (List.length fin <= td_measure st2)%nat /\
+    c_status st3 = Broken e /\ c_err_sent st3 = true /\
     forall r, In r (c_submitted st2) ->
       (exists o, outcome_of r (c_done st3) = Some o) \/ In r (c_cancelled st3).
+Check C10_pre_fix_router_strands :
+  exists st r, reachable false st /\ c_status st = Open /\ c_reserved st = [r] /\
+    let st1 := old_finish EHeaderIo st in
+    c_status st1 = Broken EHeaderIo /\ c_err_sent st1 = true /\
+    exists st2, step st1 (Push r) = Some st2 /\
+      forall ls st3, run st2 ls = Some st3 -> In r (c_queue st3) /\ outcome_of r (c_done st3) = None.
+Check C10_post_fix_router_completes :
+  match run (conn_init false) [Reserve 1; Push 1; WriterTake (Some 0); Reserve 2; Eof; TdStep; TdStep] with
+  | Some st => c_status st = Draining EHeaderIo /\ step st TdStep = None /\
+      match run st [Push 2; TdStep; TdStep] with
+      | Some st' => c_status st' = Broken EHeaderIo /\ outcome_of 2 (c_done st') = Some (FailBroken EHeaderIo) /\
+                    outcome_of 1 (c_done st') = Some (FailBroken EHeaderIo)
+      | None => False
+      end
+  | None => False
+  end.
 Check C10_no_partial :
   forall ctl st r f,
   reachable ctl st -> In (r, Resp f) (c_done st) ->
@@ -79,10 +108,15 @@ Print Assumptions C10_all_fail.
 Print Assumptions C10_accounting.
 Print Assumptions C10_none_left.
 Print Assumptions C10_later_submit_fails.
+Print Assumptions C10_submit_during_teardown.
 Print Assumptions C10_teardown_progress.
+Print Assumptions C10_draining_monotone.
 Print Assumptions C10_teardown_terminates.
+Print Assumptions C10_teardown_is_a_run.
 Print Assumptions C10_cut_anywhere.
 Print Assumptions C10_fault_completes_all.
+Print Assumptions C10_pre_fix_router_strands.
+Print Assumptions C10_post_fix_router_completes.
 Print Assumptions C10_no_partial.
 Print Assumptions C10_no_cross.
 Print Assumptions C10_unique.
